@@ -186,7 +186,8 @@ def install(ctx, repo, probes):
     probes.set(TP, "seconds_since_unix_epoch", property(monitored))
     for m in R.MODES:
         ctx.target("mode/" + m)
-    ctx.target("oper/utc", "oper/local")
+    ctx.target("oper/utc", "oper/local", "props/fractional", "props/whole",
+               "zone-minute-keyword-only")
     for m in R.MODES:
         ctx.target("now/" + m)
     ctx.target("to_epoch/binary-fraction", "local/neg", "local/pos", "local/zero", "local/neg/zero-hour",
@@ -323,6 +324,35 @@ def _run_case(ctx, repo, case, MODE):
                 except Exception as exc:
                     ctx.violation("strptime_epoch", "strptime(%r, '%%s') "
                                   "raised %r" % (str(case["n"]), exc))
+            # the constructor-properties form of the same translation
+            ctx.ev("props.check")
+            try:
+                props = repo.data.\
+                    get_timepoint_properties_from_seconds_since_unix_epoch(
+                        case["n"])
+                # (read as fields: with a fractional count the seconds are
+                # one decimal number, which the constructor does not take)
+                offm = props["time_zone_hour"] * 60 + \
+                    props["time_zone_minute"]
+                q = (R.ymd_to_rd(MODE, props["year"], props["month_of_year"],
+                                 props["day_of_month"]) * 86400 +
+                     F(props["hour_of_day"]) * 3600 +
+                     F(props["minute_of_hour"]) * 60 +
+                     F(props["second_of_minute"]) - offm * 60, offm)
+            except Exception as exc:
+                q = exc
+            want = R.unix_epoch_rd(MODE) * 86400 + F(case["n"])
+            if isinstance(q, Exception) or abs(q[0] - want) > TOL or \
+                    q[1] != case.get("std", 0) // 60:
+                ctx.violation("props.wrong", "the properties for %r s "
+                              "(system offset %d s, mode %s) denote %r" % (
+                                  case["n"], case.get("std", 0), MODE,
+                                  q if isinstance(q, Exception)
+                                  else (float(q[0] - want), q[1])))
+            else:
+                ctx.cls("props/%s" % (
+                    "fractional" if F(case["n"]).denominator != 1
+                    else "whole"))
             # the same count as "now" (the clock returns n) ...
             if case["n"] >= 0:
                 ctx.ev("now.check")
@@ -376,6 +406,18 @@ def _run_case(ctx, repo, case, MODE):
                             case.get("std", 0)))
     elif op == "to":
         p = repo.tp(case["p"])
+        # the offset the keywords spell (an absent part is zero) is the
+        # offset the point has
+        kw = case["p"]
+        want_off = kw.get("time_zone_hour", 0) * 60 + \
+            kw.get("time_zone_minute", 0)
+        if ("time_zone_hour" in kw or "time_zone_minute" in kw) and \
+                R.tp_offset_minutes(p) != want_off:
+            ctx.violation("to_epoch.zone", "TimePoint(**%r) has offset %d "
+                          "min, the keywords spell %d" % (
+                              kw, R.tp_offset_minutes(p), want_off))
+        if "time_zone_hour" not in kw and "time_zone_minute" in kw:
+            ctx.cls("zone-minute-keyword-only")
         p.seconds_since_unix_epoch
         ctx.nontrivial(("to", R.tp_key(p)))
 
@@ -478,6 +520,10 @@ def workload(ctx, repo):
                         gen.rand_year(rng, -3000, 12000)))
         mode = R.MODES[i % 4] if i % 3 == 0 else "gregorian"
         kw = gen.rand_tp(rng, mode, year=y, integral=(i % 5 != 0))
+        if i % 11 == 5:
+            # an offset below an hour given by its minute keyword alone
+            kw.pop("time_zone_hour", None)
+            kw["time_zone_minute"] = rng.choice((-45, 30, -1, 59, -30, 15))
         if i % 7 == 3:
             # a decimal form whose fraction is binary (exact in floats) and
             # leaves a sub-second part
